@@ -134,6 +134,11 @@ def _close(eng, recv, args, kwargs):
     return None
 
 
+def _closed(eng, v):
+    """handle.closed: True once close() has been called on it"""
+    return any(z.eq(v.z) for z in eng.ghost.get("closed", []))
+
+
 def _ctx_enter(eng, recv, args, kwargs):
     return recv
 
@@ -159,7 +164,8 @@ def _line_iter(src):
 
 def text_handle(src, name="text_handle", extra=None):
     """a text handle delivering the lines of source `src` (z3 Int term); `.src` names the source"""
-    proto = {"__iter_seq__": _line_iter(src), "close": _close, "__enter__": _ctx_enter, "__exit__": _ctx_exit, "__isinstance__": (_io.TextIOBase,)}
+    proto = {"__iter_seq__": _line_iter(src), "close": _close, ".closed": _closed, "__enter__": _ctx_enter, "__exit__": _ctx_exit,
+             "__isinstance__": (_io.TextIOBase,)}
     proto.update(extra or {})
     h = Opaque(z3.Const(fresh_name(name), _I), proto)
     h.src = src
@@ -169,8 +175,8 @@ def text_handle(src, name="text_handle", extra=None):
 def text_stream(name="text_stream", encoding="utf-8"):
     """a caller-supplied text stream (StringIO, an open text file): an abstract line source that is its own handle"""
     z = z3.Const(fresh_name(name), _I)
-    proto = {"__iter_seq__": _line_iter(z), "close": _close, "__enter__": _ctx_enter, "__exit__": _ctx_exit, "__isinstance__": (_io.TextIOBase,),
-             ".encoding": lambda eng, v: encoding}
+    proto = {"__iter_seq__": _line_iter(z), "close": _close, ".closed": _closed, "__enter__": _ctx_enter, "__exit__": _ctx_exit,
+             "__isinstance__": (_io.TextIOBase,), ".encoding": lambda eng, v: encoding}
     h = Opaque(z, proto)
     h.src = z
     return h
